@@ -1,16 +1,48 @@
 (* C02 -- Serialize-then-parse reproduces the packet.
    FULL STATEMENT: for every declaration of the supported language and every value assignment consistent with it,
    unpack(p.pack()) succeeds, consumes the whole string and yields field-for-field equal values.
-   PROVED (`_partial`): exactly that for the sequential sublanguage for which `Model/Consistent.consistent` is defined --
+   PROVED: C02_pack_unpack -- exactly that for the language for which `Model/ConsistentX.consistentx` is defined:
    integers, sized byte strings (constant / field / local expression), marker-delimited byte strings, references to
-   packets, counted sequences, optionals -- i.e. WITHOUT positioning, bit runs, regex / read-to-end delimiters, until-
-   loops and run-time selected references; those are covered by the correspondence and the oracle of
-   harness/props/C02.py on the implementation (and, for parse-then-serialize, by C01).  Finding D8 (a regex delimiter
-   not kept in the value) lies outside: the property excludes nothing there, the code fails it (KNOWN-FINDING). *)
+   packets and to fields / packets selected at run time, counted sequences and until-loops with per-element alignment,
+   optionals, runs of bit fields, the empty marker, forward positioning (constant alignment with any reference, non-negative
+   constant shift).  The parse ends at or after the last byte (a trailing move may leave the cursor beyond it) and exactly
+   at it when there is no positioning (and no aligned repeated packet that writes nothing: `ct_seqtight`).
+   Still outside (`consistentx` is false on them): absolute and computed positions (whether two fields collide depends on
+   the layout), regex and read-to-end delimiters; those are covered by the correspondence and the oracle of
+   harness/props/C02.py on the implementation (and, for parse-then-serialize, by C01).
+   C02_pack_unpack_partial is the earlier theorem for the sequential sublanguage.
+   Finding D8 (a regex delimiter not kept in the value) lies outside: the property excludes nothing there, the code
+   fails it (KNOWN-FINDING). *)
 From Coq Require Import ZArith List Bool.
-From Bisturi Require Import Base.Bytes Kernel.Frag Model.Value Model.Decl Model.Unpack Model.Pack Model.Canon Model.Consistent
-                            Proofs.RoundTrip Proofs.PackUnpack.
+From Bisturi Require Import Base.Bytes Kernel.Frag Model.Value Model.Decl Model.Unpack Model.Pack Model.Canon Model.WfBits Model.Consistent
+                            Model.ConsistentX Proofs.RoundTrip Proofs.PackUnpack Proofs.PackUnpackX.
 Import ListNotations. Open Scope Z_scope.
+
+(* a value that satisfies its declaration (and holds nothing under the name of an Em field or a positioning pseudo-field:
+   `vclean`) serializes -- never fails -- to well-formed bytes that parse back, whatever follows them in the input, to the
+   same packet on every declared attribute *)
+Theorem C02_pack_unpack : forall fuel host dl ct c s rest,
+  ct_distinct ct = true -> ct_bits_ok ct = true -> consistentx fuel ct c s = true -> vclean ct (VPkt c s) = true ->
+  wf_bytes rest ->
+  exists out v', pack_top fuel host dl ct c s = PBytes out v' /\ wf_bytes out /\
+    exists s' e t, unpack_pkt fuel host ct (out ++ rest) c 0 = POk (VPkt c s') e t /\ blen out <= e /\
+                   (ct_nomoves ct = true -> ct_seqtight ct = true -> e = blen out) /\
+                   visible ct (VPkt c s') = visible ct (VPkt c s).
+Proof. exact pack_unpack_x. Qed.
+
+(* non-vacuity: bit run, aligned field, until-loop of aligned nested packets, Em, shift, run-time selected reference,
+   aligned counted bytes -- hypotheses hold, 22 bytes, parse back *)
+Example C02_example_x :
+  ct_distinct px_ct = true /\ ct_bits_ok px_ct = true /\ consistentx 3 px_ct 0 px_s = true /\
+  vclean px_ct (VPkt 0 px_s) = true /\ ct_nomoves px_ct = false.
+Proof. exact px_ex_hyps. Qed.
+(* the two side conditions are needed *)
+Example C02_needs_seqtight :
+  ct_nomoves px_cx1_ct = true /\ ct_seqtight px_cx1_ct = false /\ vclean px_cx1_ct (VPkt 0 px_cx1_s) = true /\ ~ S11_as_stated.
+Proof. exact nomoves_needs_seqtight. Qed.
+Example C02_needs_vclean :
+  vclean px_cx2_ct (VPkt 0 px_cx2_s) = false /\ vclean px_cx2_ct (VPkt 0 px_cx2_s') = false /\ ~ S11_as_stated.
+Proof. exact visible_needs_vclean. Qed.
 
 (* a value that satisfies its declaration serializes (never fails) to well-formed bytes that parse back -- whatever
    follows them in the input -- to the same packet on every declared attribute, ending exactly at the end of those bytes *)
@@ -26,4 +58,5 @@ Proof. exact pack_unpack_sequential. Qed.
 Example C02_example_hypotheses : ct_distinct pu_ct3 = true /\ ct_plain pu_ct3 = true /\ consistent 3 pu_ct3 0 pu_s3 = true.
 Proof. exact pu_ex_hyps. Qed.
 
+Print Assumptions C02_pack_unpack.
 Print Assumptions C02_pack_unpack_partial.
